@@ -1,11 +1,13 @@
 #!/bin/bash
-# tools/run_all.sh [quick|thorough] [ids...]: run the registered checks one after another, print a summary
+# tools/run_all.sh [quick|thorough] [ids...]: run the registered checks one after another (from the
+# directory this script lives in), print a summary line per check
 tier=${1:-quick}; shift
 ids=${@:-C01 C02 C03 C04 C05 C06 C07 C09 C10 C11 C12 C13 C14 C15 C16 C17 C18 C19 C20}
-cd /verif
+cd "$(dirname "$0")/.."
+mkdir -p build
 for id in $ids; do
   s=$(date +%s)
-  ./check $id --tier $tier > /tmp/runall-$id.log 2>&1; rc=$?
+  ./check $id --tier $tier > build/runall-$tier-$id.log 2>&1; rc=$?
   e=$(date +%s)
-  echo "$id exit=$rc wall=$((e-s))s violations=$(grep -c '^VIOLATION' /tmp/runall-$id.log) known=$(grep -c '^KNOWN-FINDING' /tmp/runall-$id.log) errors=$(grep -c '^ERROR' /tmp/runall-$id.log)"
+  echo "$id exit=$rc wall=$((e-s))s violations=$(grep -c '^VIOLATION' build/runall-$tier-$id.log) known=$(grep -c '^KNOWN-FINDING' build/runall-$tier-$id.log) errors=$(grep -c '^ERROR' build/runall-$tier-$id.log) $(grep '^ERROR' build/runall-$tier-$id.log | cut -c1-160 | head -3 | tr '\n' '|')"
 done
